@@ -22,7 +22,7 @@ theorem nodeAtKids_skip : ∀ (pre rest : List Node) (po : Nat), fnormKids pre =
     exact nodeAtKids_skip ps rest po hn.2
 
 /-- `node_at` at the boundary in front of a child of a nested level finds that child -/
-theorem nodeAtKids_lvl {ty tyP : TypeId} {K L : List Node} {b nd : Nat} {ctx : List Node → List Node}
+theorem nodeAtKids_lvlR {ty tyP : TypeId} {K L : List Node} {b nd : Nat} {ctx : List Node → List Node}
     (h : Lvl ty K b nd tyP L ctx) (pre : List Node) (c : Node) (post : List Node) (hL : L = pre ++ c :: post)
     (hpre : fnormKids pre = true) : nodeAtKids K (b + fsize pre) = .ok (some c) := by
   induction h with
